@@ -127,7 +127,7 @@ def gen_wait(rnd, *, timeouts=True, log_step=None, targeted_ext=True):
     items = [{"lat": [rnd.choice([0, 0, 1, 2])]} for _ in range(n)]
     tmo = None
     if timeouts and rnd.random() < 0.5:
-        tmo = rnd.choice([0.5, 1, 2, 3, 5])
+        tmo = rnd.choice([0.5, 1, 2, 3, 5, 0])   # 0: "do not wait at all" -- a timer that is due the moment it is armed
     wait = {"k": "wait", "type": "Answer", "req": ({"key": "{v}"} if use_req else {}), "wid": "w-{uid}", "ask": "Ask"}
     if use_req and rnd.random() < 0.3:
         wait["wid"] = None  # engine-derived waiter id: distinct per requirement value
